@@ -198,9 +198,9 @@ func (self *Analyzer) ConvertType(oldType pAst.HmsType, createErrors bool) ast.T
 
 					return ast.NewUnknownType()
 				}
-
-				newParams = append(newParams, ast.NewFunctionTypeParam(param.Name, self.ConvertType(param.Type, createErrors), nil))
 			}
+
+			newParams = append(newParams, ast.NewFunctionTypeParam(param.Name, self.ConvertType(param.Type, createErrors), nil))
 		}
 
 		return ast.NewFunctionType(
